@@ -479,10 +479,40 @@ fn bounds_leaving_nodes(s: &mut Sess, r: &mut StdRng) {
     }
 }
 
+/// Bounds one step apart: the smallest key above `k` is `k\0`, so the ranges (k, k\0], (k, k\0),
+/// [k, k\0] and [k, k\0) hold one key or none.  Every (lower, upper) pair with every kind over keys
+/// that are each other's successors, stored or not.
+fn successor_bounds(s: &mut Sess, r: &mut StdRng) {
+    let cands: Vec<Vec<u8>> = vec![
+        vec![], vec![0], vec![0, 0], vec![0, 1], vec![1], vec![b'a'], vec![b'a', 0], vec![b'a', 0, 0], vec![b'a', 0, b'b'], vec![b'a', b'b'],
+        vec![b'a', b'b', 0], vec![0xFF], vec![0xFF, 0],
+    ];
+    for (vi, mask) in [0x1FFFu32, 0x0AAA, 0x1555, 0x0F0F, 0x1246].iter().enumerate() {
+        let keys: Vec<Vec<u8>> = cands.iter().enumerate().filter(|(i, _)| mask & (1 << i) != 0).map(|(_, k)| k.clone()).collect();
+        let items = assign(keys, if vi % 2 == 0 { ValMode::Index } else { ValMode::Zero }, r);
+        s.reset();
+        let f = match s.build(Front::MapInsert, &items, None) {
+            Some(f) => f,
+            None => continue,
+        };
+        for lo in &cands {
+            for hi in &cands {
+                for lk in &["ge", "gt"] {
+                    for hk in &["le", "lt"] {
+                        let via = *pick(r, &["raw", "map", "set"]);
+                        s.stream(f, via, &[(lk.to_string(), lo.clone()), (hk.to_string(), hi.clone())], None, false, usize::MAX);
+                    }
+                }
+            }
+        }
+    }
+}
+
 pub fn c03(s: &mut Sess, seed: u64, tier: &str) {
     let mut r = rng(seed, 3);
     exhaustive_reader(s, tier, false);
     bounds_leaving_nodes(s, &mut r);
+    successor_bounds(s, &mut r);
     let ins = inputs(&mut r, tier, true);
     let mut nin = 0usize;
     for (_name, keys) in ins {
@@ -808,11 +838,22 @@ pub fn c16(s: &mut Sess, seed: u64, tier: &str) {
     let mut nin = 0usize;
     for (_name, keys) in ins {
         let big = keys.len() > 2000;
-        for mode in &[ValMode::Index, ValMode::IndexFrom(1), ValMode::IncGaps, ValMode::IncHuge, ValMode::IndexFrom(255)] {
+        for (mi, mode) in [ValMode::Index, ValMode::IndexFrom(1), ValMode::IncGaps, ValMode::IncHuge, ValMode::IndexFrom(255), ValMode::IncHuge].iter().enumerate() {
             if big && !matches!(mode, ValMode::IncGaps) {
                 continue;
             }
-            let items = assign(keys.clone(), *mode, &mut r);
+            let mut items = assign(keys.clone(), *mode, &mut r);
+            if mi == 5 {
+                // the value scale ends at the largest value there is: the last key maps to u64::MAX,
+                // the one before it to u64::MAX - 1 (still strictly increasing)
+                let n = items.len();
+                if n >= 1 {
+                    items[n - 1].1 = u64::MAX;
+                }
+                if n >= 2 && items[n - 2].1 < u64::MAX - 1 && (n < 3 || items[n - 3].1 < u64::MAX - 1) {
+                    items[n - 2].1 = u64::MAX - 1;
+                }
+            }
             s.reset();
             nin += 1;
             let geo = if big { None } else { *pick(&mut r, GEOMETRIES) };
